@@ -266,10 +266,14 @@ def write_replay(pid, seed, idx, payload):
 
 
 def write_evidence(pid, tier, seed, level, coverage, assumptions, wall_s, violations):
-    os.makedirs(os.path.join(VERIF, 'evidence'), exist_ok=True)
+    # evidence describes /repo itself checked by the full machinery: development runs against a scratch copy (VERIF_REPO) or
+    # without the Lean audit (--no-lean) write theirs elsewhere
+    scratch = os.environ.get('VERIF_EVIDENCE_SCRATCH') == '1' or os.path.realpath(REPO) != '/repo'
+    edir = os.path.join(VERIF, 'evidence-scratch' if scratch else 'evidence')
+    os.makedirs(edir, exist_ok=True)
     ev = dict(property_id=pid, tier=tier, seed=int(seed), level=level, coverage=coverage,
               assumptions=assumptions, wall_s=round(wall_s, 2), violations=int(violations))
-    with open(os.path.join(VERIF, 'evidence', f'{pid}.json'), 'w') as fh:
+    with open(os.path.join(edir, f'{pid}.json'), 'w') as fh:
         json.dump(ev, fh, indent=1, default=str)
     return ev
 
